@@ -1,0 +1,57 @@
+//go:build verif
+
+package gomavlib
+
+import (
+	"io"
+	"sync/atomic"
+	"time"
+)
+
+// This file is compiled only with the "verif" build tag. It exposes
+// observation and fault-placement points to an external verification harness.
+
+type verifHookFunc func(point string, ch *Channel)
+
+var verifHook atomic.Pointer[verifHookFunc]
+
+// VerifSetHook installs a function that is called at every instrumentation point.
+// Passing nil removes it.
+func VerifSetHook(f func(point string, ch *Channel)) {
+	if f == nil {
+		verifHook.Store(nil)
+		return
+	}
+	hf := verifHookFunc(f)
+	verifHook.Store(&hf)
+}
+
+func verifPoint(point string, ch *Channel) {
+	if f := verifHook.Load(); f != nil {
+		(*f)(point, ch)
+	}
+}
+
+// VerifSetReconnectPeriod changes the reconnect period of client-type endpoints
+// and returns the previous value. It must be called while no node is running.
+func VerifSetReconnectPeriod(d time.Duration) time.Duration {
+	old := reconnectPeriod
+	reconnectPeriod = d
+	return old
+}
+
+// VerifSetSerialOpenFunc replaces the function that opens serial ports.
+// Passing nil is not allowed. It must be called while no node is running.
+func VerifSetSerialOpenFunc(f func(device string, baud int) (io.ReadWriteCloser, error)) {
+	serialOpenFunc = f
+}
+
+// VerifBacklog returns the number of items waiting in the channel's write queue.
+func (ch *Channel) VerifBacklog() int {
+	return len(ch.chWrite)
+}
+
+// VerifLinkID returns the signature link id picked for the channel.
+func (ch *Channel) VerifLinkID() byte {
+	return ch.streamWriter.SignatureLinkID
+}
